@@ -342,12 +342,10 @@ class LoopCtl:
         if not missing:
             return
         free = [a for a, v in self.pre.items() if a not in names and v is not UNBOUND]
-        if not free:
-            return
         try:
             st0 = self.spec.state_at(self, sym.Num(0))
         except Exception:
-            return
+            st0 = {}
         run = self.run
 
         def same(x, y):
@@ -383,6 +381,13 @@ class LoopCtl:
             self.pre[c] = self.pre[a]
             if a in self.orig:
                 self.orig[c] = self.orig[a]
+        left = [c for c in missing if c not in self.alias]
+        if left:
+            # the contract speaks about a state component this function does not have under any name: it cannot summarise
+            # this loop (never a verdict) -- found as a false alarm on a refactoring that renamed the marching state while
+            # the step-extraction contract had no iteration-0 state to match roles with
+            raise sym.Undecided("loop %d of %s: the contract's state component(s) %s are not locals of this function and no local plays "
+                                "their role" % (self.ordinal, self.fname, ", ".join(left)))
 
     def iterate(self):
         run = self.run
